@@ -7,7 +7,7 @@ from manifest_meta import META, NOT_YET
 ROOT = os.path.dirname(os.path.abspath(__file__))
 props = [json.loads(l) for l in open(os.path.join(ROOT, "properties.jsonl"))]
 ids = [p["id"] for p in props]
-hook_commits = subprocess.run(["git", "-C", "/repo", "log", "--format=%h %s", "--grep=^verif feature"],
+hook_commits = subprocess.run(["git", "-C", "/repo", "log", "--format=%h %s", "--grep=^verif"],
                               stdout=subprocess.PIPE, text=True).stdout.strip().splitlines()
 checks = []
 for pid in ids:
